@@ -244,3 +244,164 @@ Proof.
   intros Hs Hx Hy Hz. unfold strain_B. rewrite strain_Bavg3 by assumption.
   unfold Bavg3_closed, aff3, mvmul, dot, nodepos. shape_unfold. list_eq ltac:(field; auto).
 Qed.
+
+(* ================================================================== module level (any grid) *)
+Lemma map_const_repeat {A B} (c : B) (l : list A) : map (fun _ => c) l = repeat c (length l).
+Proof. induction l as [|a l IH]; cbn; [reflexivity|]. f_equal. exact IH. Qed.
+
+(* if every element sees the same value vector v, the output rows are constant *)
+Lemma op_fwd_const (rows : list (list R)) (dcs : list (list Z)) (u v : list R) : dcs <> [] ->
+  (forall dce, In dce dcs -> mvmul rows (gatherZ u dce) = v) ->
+  op_fwd rows dcs u = map (fun vi => repeat vi (length dcs)) v.
+Proof.
+  intros Hne. revert v. induction rows as [|r rows IH]; intros v Hv.
+  - destruct dcs as [|dce0 dcs']; [contradiction|]. specialize (Hv dce0 (or_introl eq_refl)). cbn in Hv. subst v. reflexivity.
+  - destruct v as [|v0 v].
+    + destruct dcs as [|dce0 dcs']; [contradiction|]. specialize (Hv dce0 (or_introl eq_refl)). discriminate.
+    + unfold op_fwd in *. cbn [map]. f_equal.
+      * rewrite <- map_const_repeat. apply map_ext_in. intros dce Hin. specialize (Hv dce Hin). cbn [mvmul map] in Hv.
+        inversion Hv. reflexivity.
+      * apply IH. intros dce Hin. specialize (Hv dce Hin). cbn [mvmul map] in Hv. inversion Hv. reflexivity.
+Qed.
+
+Lemma dofconn_all_nonempty g ndof : wf g -> dofconn_all g ndof <> [].
+Proof.
+  intros Hwf E. apply (f_equal (@length _)) in E. rewrite dofconn_all_length in E. cbn in E.
+  destruct Hwf as (Hx & Hy & Hz). unfold nel, nz1 in E. assert (0 < nelx g * nely g * Z.max (nelz g) 1)%Z by nia. lia.
+Qed.
+
+Lemma nnodes_pos g : wf g -> (0 < nnodes g)%Z.
+Proof. intros (Hx & Hy & Hz). unfold nnodes. nia. Qed.
+
+Lemma eo_ndof_field {K} `{Num K} g ndof (f : Z -> Z -> K) : wf g -> (0 <= ndof)%Z ->
+  eo_ndof g (Z.of_nat (length (nodal_field g ndof f))) = ndof.
+Proof.
+  intros Hwf Hn. pose proof (nnodes_pos g Hwf) as Hp.
+  rewrite nodal_field_length by lia. unfold eo_ndof, asm_n. rewrite Z2Nat.id by nia. apply Z.div_mul. lia.
+Qed.
+
+(* ---- Strain on a globally affine displacement field ---- *)
+Section StrainGlobal2.
+  Variables (g : grid) (s3 hx hy hz : R).
+  Hypothesis Hwf : wf g.
+  Hypothesis H2d : nelz g = 0%Z.
+  Hypothesis Hs : s3 <> 0.
+  Hypothesis Hx : hx <> 0.
+  Hypothesis Hy : hy <> 0.
+  Let h := [hx; hy; hz].
+  Let cx (e : Z) := hx * (IZR (elem_i g e) + 1 / 2).
+  Let cy (e : Z) := hy * (IZR (elem_j g e) + 1 / 2).
+
+  (* u(n) = G pos(n) + c *)
+  Definition affine_field2 (g11 g12 g21 g22 c1 c2 : R) (n d : Z) : R :=
+    let x := hx * IZR (node_i g n) in let y := hy * IZR (node_j g n) in
+    if Z.eqb d 0 then c1 + g11 * x + g12 * y else c2 + g21 * x + g22 * y.
+
+  Lemma gather_affine2 g11 g12 g21 g22 c1 c2 e : (0 <= e < nel g)%Z ->
+    gatherZ (nodal_field g 2 (affine_field2 g11 g12 g21 g22 c1 c2)) (dofconn g 2 e)
+    = aff2 h g11 g12 g21 g22 (c1 + g11 * cx e + g12 * cy e) (c2 + g21 * cx e + g22 * cy e).
+  Proof.
+    intros He. rewrite gather_nodal_field by (auto; lia).
+    rewrite flat_map_concat_map. unfold affine_field2. change (zrange 2) with [0%Z; 1%Z].
+    rewrite (conn_map_ijk g e (fun i j k => map (fun d => if Z.eqb d 0 then c1 + g11 * (hx * IZR i) + g12 * (hy * IZR j)
+                                                        else c2 + g21 * (hx * IZR i) + g22 * (hy * IZR j)) [0%Z; 1%Z]) Hwf He).
+    rewrite H2d. unfold aff2, h, nodepos, cx, cy.
+    cbn -[Rmult Rplus Rdiv Rminus IZR Rinv Ropp elem_i elem_j elem_k Z.add].
+    rewrite !plus_IZR. repeat (apply (f_equal2 (@cons R)); [field|]). reflexivity.
+  Qed.
+
+  Lemma eo_response_strain2 voigt u : eo_ndof g (Z.of_nat (length u)) = 2%Z ->
+    eo_response g (strain_opmat s3 2 h voigt) u = op_fwd (strain_B s3 2 h voigt) (dofconn_all g 2) u.
+  Proof.
+    intros Hn. unfold eo_response. rewrite Hn. unfold eo_effective, strain_opmat. cbn [om_kd om_rows].
+    rewrite (elemnodes_2d g Hwf H2d). reflexivity.
+  Qed.
+
+  (* voigt=True: normal components exact, shear component = 2 x engineering shear, in every element of every grid *)
+  Theorem strain2_global_voigt g11 g12 g21 g22 c1 c2 :
+    eo_response g (strain_opmat s3 2 h true) (nodal_field g 2 (affine_field2 g11 g12 g21 g22 c1 c2))
+    = map (fun v => repeat v (Z.to_nat (nel g))) [g11; g22; 2 * (g12 + g21)].
+  Proof.
+    rewrite eo_response_strain2 by (apply eo_ndof_field; [exact Hwf | lia]).
+    rewrite <- (dofconn_all_length g 2). apply op_fwd_const; [apply dofconn_all_nonempty; exact Hwf|].
+    intros dce Hin. unfold dofconn_all in Hin. apply in_map_iff in Hin as (e & <- & He). apply in_zrange in He.
+    rewrite gather_affine2 by exact He. apply strain2_affine_voigt; assumption.
+  Qed.
+
+  Theorem strain2_global_novoigt g11 g12 g21 g22 c1 c2 :
+    eo_response g (strain_opmat s3 2 h false) (nodal_field g 2 (affine_field2 g11 g12 g21 g22 c1 c2))
+    = map (fun v => repeat v (Z.to_nat (nel g))) [g11; g22; g12 + g21].
+  Proof.
+    rewrite eo_response_strain2 by (apply eo_ndof_field; [exact Hwf | lia]).
+    rewrite <- (dofconn_all_length g 2). apply op_fwd_const; [apply dofconn_all_nonempty; exact Hwf|].
+    intros dce Hin. unfold dofconn_all in Hin. apply in_map_iff in Hin as (e & <- & He). apply in_zrange in He.
+    rewrite gather_affine2 by exact He. apply strain2_affine_novoigt; assumption.
+  Qed.
+End StrainGlobal2.
+
+Section StrainGlobal3.
+  Variables (g : grid) (s3 hx hy hz : R).
+  Hypothesis Hwf : wf g.
+  Hypothesis H3d : nelz g <> 0%Z.
+  Hypothesis Hs : s3 <> 0.
+  Hypothesis Hx : hx <> 0.
+  Hypothesis Hy : hy <> 0.
+  Hypothesis Hz : hz <> 0.
+  Let h := [hx; hy; hz].
+  Let cx (e : Z) := hx * (IZR (elem_i g e) + 1 / 2).
+  Let cy (e : Z) := hy * (IZR (elem_j g e) + 1 / 2).
+  Let cz (e : Z) := hz * (IZR (elem_k g e) + 1 / 2).
+
+  Definition affine_field3 (g11 g12 g13 g21 g22 g23 g31 g32 g33 c1 c2 c3 : R) (n d : Z) : R :=
+    let x := hx * IZR (node_i g n) in let y := hy * IZR (node_j g n) in let z := hz * IZR (node_k g n) in
+    if Z.eqb d 0 then c1 + g11 * x + g12 * y + g13 * z
+    else if Z.eqb d 1 then c2 + g21 * x + g22 * y + g23 * z else c3 + g31 * x + g32 * y + g33 * z.
+
+  Lemma gather_affine3 g11 g12 g13 g21 g22 g23 g31 g32 g33 c1 c2 c3 e : (0 <= e < nel g)%Z ->
+    gatherZ (nodal_field g 3 (affine_field3 g11 g12 g13 g21 g22 g23 g31 g32 g33 c1 c2 c3)) (dofconn g 3 e)
+    = aff3 h g11 g12 g13 g21 g22 g23 g31 g32 g33
+           (c1 + g11 * cx e + g12 * cy e + g13 * cz e) (c2 + g21 * cx e + g22 * cy e + g23 * cz e)
+           (c3 + g31 * cx e + g32 * cy e + g33 * cz e).
+  Proof.
+    intros He. rewrite gather_nodal_field by (auto; lia).
+    rewrite flat_map_concat_map. unfold affine_field3. change (zrange 3) with [0%Z; 1%Z; 2%Z].
+    rewrite (conn_map_ijk g e (fun i j k => map (fun d =>
+       if Z.eqb d 0 then c1 + g11 * (hx * IZR i) + g12 * (hy * IZR j) + g13 * (hz * IZR k)
+       else if Z.eqb d 1 then c2 + g21 * (hx * IZR i) + g22 * (hy * IZR j) + g23 * (hz * IZR k)
+       else c3 + g31 * (hx * IZR i) + g32 * (hy * IZR j) + g33 * (hz * IZR k)) [0%Z; 1%Z; 2%Z]) Hwf He).
+    assert (Hzb : Z.eqb (nelz g) 0 = false) by (apply Z.eqb_neq; exact H3d).
+    rewrite Hzb. unfold aff3, h, nodepos, cx, cy, cz.
+    cbn -[Rmult Rplus Rdiv Rminus IZR Rinv Ropp elem_i elem_j elem_k Z.add].
+    rewrite !plus_IZR. repeat (apply (f_equal2 (@cons R)); [field|]). reflexivity.
+  Qed.
+
+  Lemma eo_response_strain3 voigt u : eo_ndof g (Z.of_nat (length u)) = 3%Z ->
+    eo_response g (strain_opmat s3 3 h voigt) u = op_fwd (strain_B s3 3 h voigt) (dofconn_all g 3) u.
+  Proof.
+    intros Hn. unfold eo_response. rewrite Hn. unfold eo_effective, strain_opmat. cbn [om_kd om_rows].
+    rewrite (elemnodes_3d g Hwf H3d). reflexivity.
+  Qed.
+
+  (* Voigt order xx, yy, zz, yz, zx, xy *)
+  Theorem strain3_global_voigt g11 g12 g13 g21 g22 g23 g31 g32 g33 c1 c2 c3 :
+    eo_response g (strain_opmat s3 3 h true)
+                (nodal_field g 3 (affine_field3 g11 g12 g13 g21 g22 g23 g31 g32 g33 c1 c2 c3))
+    = map (fun v => repeat v (Z.to_nat (nel g))) [g11; g22; g33; 2 * (g23 + g32); 2 * (g13 + g31); 2 * (g12 + g21)].
+  Proof.
+    rewrite eo_response_strain3 by (apply eo_ndof_field; [exact Hwf | lia]).
+    rewrite <- (dofconn_all_length g 3). apply op_fwd_const; [apply dofconn_all_nonempty; exact Hwf|].
+    intros dce Hin. unfold dofconn_all in Hin. apply in_map_iff in Hin as (e & <- & He). apply in_zrange in He.
+    rewrite gather_affine3 by exact He. apply strain3_affine_voigt; assumption.
+  Qed.
+
+  Theorem strain3_global_novoigt g11 g12 g13 g21 g22 g23 g31 g32 g33 c1 c2 c3 :
+    eo_response g (strain_opmat s3 3 h false)
+                (nodal_field g 3 (affine_field3 g11 g12 g13 g21 g22 g23 g31 g32 g33 c1 c2 c3))
+    = map (fun v => repeat v (Z.to_nat (nel g))) [g11; g22; g33; g23 + g32; g13 + g31; g12 + g21].
+  Proof.
+    rewrite eo_response_strain3 by (apply eo_ndof_field; [exact Hwf | lia]).
+    rewrite <- (dofconn_all_length g 3). apply op_fwd_const; [apply dofconn_all_nonempty; exact Hwf|].
+    intros dce Hin. unfold dofconn_all in Hin. apply in_map_iff in Hin as (e & <- & He). apply in_zrange in He.
+    rewrite gather_affine3 by exact He. apply strain3_affine_novoigt; assumption.
+  Qed.
+End StrainGlobal3.
